@@ -309,8 +309,8 @@ class SymEval:
             if nd.kind == "entry":
                 return ("param", name)
             val = self.cfg.def_value(d, name)
-            if (name + "[]") in self._all_defs or name in self._mutated:
-                val = None
+            if ((name + "[]") in self._all_defs or name in self._mutated) and not _is_reference(val):
+                val = None  # (an alias 'x = self.items' still names the same object after x.append(..))
             if val is not None and _mentions(val, name) and d in self.rd.get(d, {}).get(name, ()):
                 val = None  # loop-carried x = x + 1: an update of x (like x += 1), not a definition from other values  # elements are stored into the object later: its defining expression no longer describes it
             if val is not None and depth < self.max_depth and nd.kind == "stmt" and isinstance(nd.ast, (
@@ -345,6 +345,8 @@ class SymEval:
                 return r
             if self.resolve_global is not None:
                 g = self.resolve_global(e.id)
+                if isinstance(g, tuple):
+                    return g  # a module-level constant: its value
                 if g:
                     return ("global", g)
             return ("global", e.id)
@@ -533,6 +535,13 @@ _DRAW_METHODS = {"random", "integers", "uniform", "normal", "standard_normal", "
                  "shuffle", "beta", "binomial", "exponential", "gamma", "poisson", "bytes", "multinomial", "triangular",
                  "laplace", "lognormal", "rand", "randn", "randint", "random_", "normal_", "uniform_", "bernoulli_",
                  "randperm", "bernoulli"}
+
+
+def _is_reference(e) -> bool:
+    """A name or attribute chain: evaluating it yields an existing object, it creates none."""
+    while isinstance(e, ast.Attribute):
+        e = e.value
+    return isinstance(e, ast.Name)
 
 
 def _is_draw(f: Term) -> bool:
